@@ -213,7 +213,7 @@ def o_sokaka(s, ctx, v, out):
         return
     out.evals += 1
     other = int(s.opts.get('cls', 0)) & 1
-    out.keys.add(('sokaka', other, s.opts.get('klen')))
+    out.keys.add(('sokaka', other, s.opts.get('klen'), s.opts.get('k')))
     if not other and s.out['keyA'] != s.out['keyB']:
         v.bad('keys-differ', 'alice derived %s, bob %s' % (s.out['keyA'].hex(), s.out['keyB'].hex()))
     if other and s.out['keyA'] == s.out['keyB'] and len(s.out['keyA']) >= 8:
@@ -310,7 +310,8 @@ SCHEMES.update({
     'ibe': Spec('C06', 6, dict(pub='g1', prv='g2', ct='bytes'), o_ibe, pc=True,
                 opts=lambda rng: dict(cls=rng.choice([0, 0, 0, 1]), mlen=rng.choice([1, 5, 16, 31, 32, 33, 64, 100]))),
     'bgn': Spec('C06', 4, dict(), o_bgn, pc=True, weight=5, opts=lambda rng: dict(ord=rng.below(11 * 11 * 7))),
-    'sokaka': Spec('C06', 5, dict(), o_sokaka, pc=True, weight=6, opts=lambda rng: dict(cls=rng.choice([0, 0, 1]), klen=rng.choice([16, 32, 48]))),
+    'sokaka': Spec('C06', 5, dict(), o_sokaka, pc=True, weight=6,
+                   opts=lambda rng: dict(cls=rng.choice([0, 0, 1]), klen=rng.choice([16, 32, 48]), k=rng.below(8))),
     'mt': Spec('C06', 6, dict(d0='bn', d1='bn', e0='bn', e1='bn'), o_mt, opts=lambda rng: dict(cls=rng.choice([0, 0, 0, 1]))),
     'pdpub': Spec('C06', 5, dict(), o_pd, pc=True, extra_faults=GTH, weight=6),
     'lvpub': Spec('C06', 5, dict(), o_pd, pc=True, extra_faults=GTH[:16], weight=6),
